@@ -355,6 +355,7 @@ func CompileList(list List) (f Object) {
 						Function: Function{
 							Name: name,
 							Self: &lc,
+							Args: args,
 						},
 					}
 				}
